@@ -31,7 +31,7 @@ func rulesC06(e *Engine, r *Report) {
 			C("(call(io.Copy)("+fhAny+", p2)#1 == nil)", "copyOK"),
 			C("((p1.Parts[0].End - p1.Parts[0].Beg) == call(io.Copy)("+fhAny+", p2)#0)", "countOK"),
 			C("(call(io.Copy)("+fhAny+", p2)#0 == (p1.Parts[0].End - p1.Parts[0].Beg))", "countOK"),
-			C("(call(stage.writeCompanion)("+path+", "+cmpv+") == nil)", "recorded"),
+			C("(call(stage.writeCompanion)(("+path+" + \".cmp\"), "+cmpv+") == nil)", "recorded"),
 			I("call(stage.addCompanionPart)("+cmpv+", p1.Parts[0].Beg, p1.Parts[0].End)", "rangeAdded"),
 		)
 		_ = cp
